@@ -13,6 +13,8 @@ import os
 import numpy as np
 
 from vf import core
+from vf import callforms
+from vf import errorpaths
 from vf import solverlib as sl
 
 PROPERTY = "C04"
@@ -216,5 +218,7 @@ def run(ctx):
         "4 x 2 grids x 4 halos x 3 mode counts x 2 precisions); per configuration: full impulse basis superposition, 3 fields x 5 scalars, 6 ordered pairs x 3 "
         "coefficient pairs, 3 fields x 3 backgrounds, 5 source fillings in footprint mode; all configurations are distinct lattice points (non-trivial); evaluations counts solver executions"
     )
+    callforms.run_solver_forms(ctx)
+    errorpaths.run(ctx, case_linear, [c for c in configs(ctx.tier) if not c['analytic'] and c['prof'] == 'most_aniso'][:1])
     ctx.run_cases(case_linear, configs(ctx.tier), sub="linearity", chunksize=1)
     ctx.run_cases(case_representation, repr_cases(ctx.tier), sub="argument-representation", chunksize=1)
